@@ -133,6 +133,27 @@ Lemma pmap_get_eq : forall m j,
   end.
 Proof. reflexivity. Qed.
 
+(* lia is given the quotients and remainders as opaque variables *)
+Lemma div4_lt : forall j size, size mod 4 = 0 ->
+  (j < size <-> (N.to_nat (j / 4) < N.to_nat (size / 4))%nat).
+Proof.
+  intros j size E.
+  pose proof (N.div_mod' size 4) as H1. pose proof (N.div_mod' j 4) as H2.
+  assert (H3 : j mod 4 < 4) by (apply N.mod_lt; lia).
+  remember (j / 4) as qj. remember (size / 4) as qs.
+  remember (j mod 4) as rj. remember (size mod 4) as rs.
+  clear Heqqj Heqqs Heqrj Heqrs. lia.
+Qed.
+
+Lemma mod4_neq : forall i j, i <> j -> i / 4 = j / 4 -> i mod 4 <> j mod 4.
+Proof.
+  intros i j Hne Ed.
+  pose proof (N.div_mod' i 4) as H1. pose proof (N.div_mod' j 4) as H2.
+  remember (i / 4) as qi. remember (j / 4) as qj.
+  remember (i mod 4) as ri. remember (j mod 4) as rj.
+  clear Heqqi Heqqj Heqri Heqrj. lia.
+Qed.
+
 (* -------------------------------------------------------------------- theorems *)
 Theorem pmap_new_spec : forall size m, pmap_new size = Ok m ->
   pmap_wf m /\ forall j, pmap_get m j = Ok (if j <? size then Some GFree else None).
@@ -143,16 +164,15 @@ Proof.
   - unfold pmap_wf. cbn [pm_bytes]. apply Forall_forall. intros x Hx.
     apply repeat_spec in Hx. subst x. reflexivity.
   - intro j. rewrite pmap_get_eq. cbn [pm_bytes]. rewrite nth_error_repeat0.
-    pose proof (N.div_mod' size 4) as H1. pose proof (N.div_mod' j 4) as H2.
-    assert (H3 : j mod 4 < 4) by (apply N.mod_lt; lia).
+    pose proof (div4_lt j size E) as Hd.
     destruct (j <? size) eqn:Ej.
     + apply N.ltb_lt in Ej.
       assert (Hlt : (N.to_nat (j / 4) <? N.to_nat (size / 4))%nat = true)
-        by (apply Nat.ltb_lt; lia).
+        by (apply Nat.ltb_lt; apply Hd; exact Ej).
       rewrite Hlt. unfold field. rewrite N.shiftr_0_l. reflexivity.
     + apply N.ltb_ge in Ej.
       assert (Hlt : (N.to_nat (j / 4) <? N.to_nat (size / 4))%nat = false)
-        by (apply Nat.ltb_ge; lia).
+        by (apply Nat.ltb_ge; apply Nat.nlt_ge; intro Hc; apply Hd in Hc; lia).
       rewrite Hlt. reflexivity.
 Qed.
 
@@ -188,7 +208,7 @@ Proof.
         destruct (byte_core byte (i mod 4) s (j mod 4) Hb Hi Hj) as [_ F].
         rewrite F.
         assert (Hne : (i mod 4 =? j mod 4) = false).
-        { apply N.eqb_neq. pose proof (N.div_mod' i 4). pose proof (N.div_mod' j 4). lia. }
+        { apply N.eqb_neq. apply mod4_neq; auto. }
         rewrite Hne. reflexivity.
       * rewrite nth_error_list_upd_neq; [reflexivity|].
         intro Hc. apply Ed. apply N2Nat.inj. exact Hc.
